@@ -131,21 +131,32 @@ theorem nextRaw_keep : ∀ (fuel : Nat) (r : Rd), r.isFree = true → Keep r (ne
     | exit => exact hp
     | unsup => exact hp
 
-theorem next1_keep (r : Rd) (hf : r.isFree = true) : Keep r (next1 r).2 := by
-  unfold next1
-  have hp := nextRaw_keep (nextRawFuel r) r hf
-  generalize nextRaw (nextRawFuel r) r = p at hp ⊢
-  simp only []
-  cases p.1 with
-  | ok it =>
+theorem next1Loop_keep : ∀ (fuel : Nat) (r : Rd), r.isFree = true → Keep r (next1Loop fuel r).2
+  | 0, r, _ => Keep.refl r
+  | fuel + 1, r, hf => by
+    unfold next1Loop
+    have hp := nextRaw_keep (nextRawFuel r) r hf
+    generalize nextRaw (nextRawFuel r) r = p at hp ⊢
     simp only []
-    obtain ⟨f, hst⟩ := splitSemicolon_state it p.2
-    rw [hst]
-    exact hp.trans (Keep.setFifo _ _)
-  | stop => exact hp
-  | err => exact hp
-  | exit => exact hp
-  | unsup => exact hp
+    cases p.1 with
+    | ok it =>
+      simp only []
+      cases hq : splitSemicolon it p.2 with
+      | none =>
+        simp only []
+        exact hp.trans (next1Loop_keep fuel p.2 (by rw [hp.free]; exact hf))
+      | some q =>
+        simp only []
+        obtain ⟨f, hst⟩ := splitSemicolon_state it p.2 q hq
+        rw [hst]
+        exact hp.trans (Keep.setFifo _ _)
+    | stop => exact hp
+    | err => exact hp
+    | exit => exact hp
+    | unsup => exact hp
+
+theorem next1_keep (r : Rd) (hf : r.isFree = true) : Keep r (next1 r).2 :=
+  next1Loop_keep _ r hf
 
 /-- free form: `linecount` is exactly the number of physical lines read so far -/
 theorem next1_free_linecount (r : Rd) (hf : r.isFree = true) (hfilo : r.filo = []) (hi : Inv r) :
